@@ -134,6 +134,7 @@ func rulesC04(w *World, r *Report) {
 		r.Check(okCount && okRaw, "C04.R1", "FetchFromArchive:shape:count", w.pos(f.Pos()), "both sides produce (until-from)/step values of the same bounds", "the number of values does not derive from the returned (from, until, step) on both sides: "+detail)
 	}
 
+	ruleFetchRawReturnsWhole(w, r, "C04.R1")
 	r.Rule("C04.R2", "no nil series depends on file content, and the nil results are exactly under `now < from` and `until < now.Add(-retention of the selected archive)`", 1)
 	var nilConds []string
 	for _, rt := range returnsOf(f) {
@@ -355,6 +356,8 @@ func rulesC01(w *World, r *Report) {
 	}
 	ruleStaleFilter(w, r, "C01.R2")
 	ruleAligned(w, r, "C01.R3")
+	r.Rule("C01.R4", "the batch writer aligns and stores every point of the batch it is given (no filtering inside archiveUpdateMany)", 2)
+	ruleWriterWritesAll(w, r, "C01.R4")
 }
 
 func sizeOfBasic(b *types.Basic) int {
